@@ -62,11 +62,18 @@ pub fn compare(inc: &AnalyzedSource, fresh: &AnalyzedSource) -> Result<(), (Stri
     if inc.text != fresh.text {
         return Err(("text".into(), format!("{:?} vs {:?}", inc.text, fresh.text)));
     }
+    // (details are cut: the debug form of a large tree is hundreds of KB per diverging case)
     if inc.tokens != fresh.tokens {
-        return Err(("tokens".into(), format!("inc={:?}\nfresh={:?}", inc.tokens, fresh.tokens)));
+        return Err(("tokens".into(), format!("inc={}\nfresh={}", truncate(&format!("{:?}", inc.tokens), 1200), truncate(&format!("{:?}", fresh.tokens), 1200))));
     }
     if inc.ast != fresh.ast {
-        return Err(("tree".into(), format!("inc={:?}\nfresh={:?}", inc.ast, fresh.ast)));
+        // the first declaration that differs
+        let k = inc.ast.global_declarations.iter().zip(&fresh.ast.global_declarations).position(|(a, b)| a != b);
+        let show = |a: &AnalyzedSource| match k {
+            Some(k) => truncate(&format!("declaration #{}: {:?}", k, a.ast.global_declarations[k]), 1200),
+            None => truncate(&format!("{} declarations, program info {:?}", a.ast.global_declarations.len(), a.ast.info), 1200),
+        };
+        return Err(("tree".into(), format!("inc={}\nfresh={}", show(inc), show(fresh))));
     }
     if !table_eq(inc, fresh) {
         return Err(("table".into(), format!("inc={:?}\nfresh={:?}", inc.table.entries.keys().collect::<Vec<_>>(), fresh.table.entries.keys().collect::<Vec<_>>())));
@@ -237,6 +244,12 @@ pub fn families(tier: Tier) -> Vec<(&'static str, Vec<Case>)> {
             token_window_cases("F4-program-token-windows", &words, SIGMA_TOK, &mut v);
         }
         // a few larger programs of the typed families
+        // ... and the program beyond the small bounds (every token window of its 40 declarations)
+        for it in items.iter().filter(|i| i.family == "scale") {
+            let pr = print_program(&it.program);
+            let words: Vec<String> = pr.toks.iter().map(|t| t.text.clone()).collect();
+            token_window_cases("F4-program-token-windows", &words, &SIGMA_TOK[..tier.pick(12, 33)], &mut v);
+        }
         let big: Vec<_> = items.iter().filter(|i| i.family == "stmt@contexts" || i.family == "expr@contexts").collect();
         for it in big.iter().step_by(tier.pick(300, 30)) {
             let pr = print_program(&it.program);
@@ -704,7 +717,7 @@ after a fresh didOpen {:?}", last(&o), last(&of)))
                 let mut cur = c.text.clone();
                 let mut s = Session::new(false);
                 s.open(URI, &c.text);
-                for r in all_requests(&c.text, URI, false).into_iter().step_by(7) {
+                for r in all_requests(&c.text, URI, false).into_iter().step_by(if c.text.len() > 2000 { 701 } else { 7 }) {
                     s.request(&r.method, r.params);
                 }
                 for b in &c.batches {
@@ -719,8 +732,11 @@ after a fresh didOpen {:?}", last(&o), last(&of)))
                 }
                 // on the final text: the document requests and the position requests at the first
                 // column of every token and directly behind the text
+                // (large texts: every 25th token, or one case would be some 10^4 requests)
+                let tok_step = if cur.len() > 2000 { 25 } else { 1 };
                 let starts: std::collections::BTreeSet<(u64, u64)> = crate::reflex::lex(&cur)
                     .iter()
+                    .step_by(tok_step)
                     .map(|t| lsptext::position(&cur, t.start))
                     .chain(std::iter::once(lsptext::position(&cur, cur.len())))
                     .map(|(l, c)| (l as u64, c as u64))
